@@ -235,3 +235,38 @@ def phrase_size(ctx, rep):
                       sample={'language': key, 'form': 'NFC', 'worst': worst_c, 'buffer': size}, key='SIZE-1|%s|nfc' % key)
         tab[key] = {'nfkd_worst': worst_d, 'nfc_worst': worst_c, 'compose': L.compose}
     rep.info['worst_case_bytes'] = tab
+
+
+def registry_api(ctx, rep):
+    """C07: the public registry accessors, evaluated abstractly on the constant registry"""
+    from .bitflow import Interp, State, Ptr, BV, Tag, Unmodelled
+    from .ir import LANG_STRUCT
+    for cfg in (ctx.configs('path') if ctx.tier == 'thorough' else ['NsS']):
+        P = ctx.prog(cfg)
+        if cfg not in rep.configs: rep.configs.append(cfg)
+        T = ctx.tables()
+        rep.rule('TAB-6', 'registry accessors, evaluated abstractly: polyseed_get_num_langs() returns the number of registered languages; polyseed_get_lang(i) '
+                 'returns the i-th registry entry for every valid i; polyseed_get_lang_name / _name_en return the name fields of the table they are given')
+        f = P.fn('polyseed_get_num_langs')
+        I = Interp(P); o = I.run(f, [], State())
+        n = o[0].ret.concrete() if len(o) == 1 else None
+        rep.check(n == len(T.registry), 'polyseed_get_num_langs() = %d' % len(T.registry), '%s:%s' % ((f.file or '').replace('/repo/', ''), f.line), f.name, detail=n,
+                  sample={'num_langs': n}, key='TAB-6|num')
+        g = P.fn('polyseed_get_lang')
+        for k, sym in enumerate(T.registry):
+            I = Interp(P); o = I.run(g, [BV.const(k, 32)], State())
+            ok = len(o) == 1 and isinstance(o[0].ret, Ptr) and o[0].ret.obj == 'g:' + sym and o[0].ret.coff() == 0
+            rep.check(ok, 'polyseed_get_lang(%d) = &%s' % (k, sym), '%s:%s' % ((g.file or '').replace('/repo/', ''), g.line), g.name, detail=repr(o[0].ret) if o else None,
+                      key='TAB-6|lang%d' % k)
+        lf = {nm: (o_, sz) for o_, (nm, sz) in P.field_table(LANG_STRUCT).items()}
+        for fn, fld in (('polyseed_get_lang_name', 'name'), ('polyseed_get_lang_name_en', 'name_en')):
+            h = P.fn(fn)
+            I = Interp(P); st = State(); st.mem.new('lang', 8, 0)
+            def hook(I_, st_, ptr, nbytes, inst, as_ptr):
+                c0 = ptr.parts[0] if ptr.parts else ptr.coff()
+                for nm, (o_, sz) in lf.items():
+                    if o_ == c0: return Tag(nm)
+                raise Unmodelled('accessor reads the language table at offset %s' % c0)
+            st.mem.hooks = {'lang': hook}
+            o = I.run(h, [Ptr('lang', 0)], st)
+            rep.check(len(o) == 1 and o[0].ret == Tag(fld), '%s(lang) = lang->%s' % (fn, fld), '%s:%s' % ((h.file or '').replace('/repo/', ''), h.line), fn, key='TAB-6|' + fn)
